@@ -6,17 +6,23 @@ ID = 'C17'
 LEAN_MODULES = ['TboxModel.C17.Props']
 EXE = 'c17'
 THEOREMS = [
+    # layer 1: one action, every call sequence (log level)
     'Tbox.C17.C17_base_finish_once', 'Tbox.C17.C17_base_no_stale_after_reset', 'Tbox.C17.C17_base_stopped_delivers_none',
-    'Tbox.C17.C17_final_once_per_run', 'Tbox.C17.C17_no_restart_underway',
+    # layer 2: every tree, every op sequence
+    'Tbox.C17.C17_tree_inv', 'Tbox.C17.C17_quiescent_after_end', 'Tbox.C17.C17_quiescent_after_stop',
+    'Tbox.C17.C17_no_stale_anywhere', 'Tbox.C17.C17_serial_invariants', 'Tbox.C17.C17_final_once_per_run', 'Tbox.C17.C17_final_hook',
+    'Tbox.C17.C17_reset_fresh', 'Tbox.C17.C17_no_restart_underway',
     'Tbox.C17.C17_result_matches_doc_sequence', 'Tbox.C17.C17_result_matches_doc_sequence_eval',
-    'Tbox.C17.C17_quiescent_after_stop', 'Tbox.C17.C17_quiescent_after_finish',
+    # defects: unrepaired configuration vs repaired
     'Tbox.C17.C17_parallel_lost_result_counterexample', 'Tbox.C17.C17_parallel_repaired',
     'Tbox.C17.C17_replay_after_reset_counterexample', 'Tbox.C17.C17_replay_repaired',
     'Tbox.C17.C17_replay_advances_next_run_counterexample', 'Tbox.C17.C17_replay_next_run_repaired',
     'Tbox.C17.C17_timeout_leaves_child_running_counterexample', 'Tbox.C17.C17_timeout_repaired',
     'Tbox.C17.C17_stale_block_counterexample', 'Tbox.C17.C17_stale_block_repaired',
-    'Tbox.C17.C17_sequence_header_literal_differs', 'Tbox.C17.C17_repeat_zero_counterexample',
-    'Tbox.C17.bstep_inv', 'Tbox.C17.stop_quiet', 'Tbox.C17.seq_drive_aux',
+    'Tbox.C17.C17_repeat_zero_counterexample', 'Tbox.C17.C17_repeat_zero_repaired',
+    'Tbox.C17.C17_sequence_header_literal_differs',
+    # the inductive steps themselves
+    'Tbox.C17.bstep_inv', 'Tbox.C17.step_wf', 'Tbox.C17.reachable_wf', 'Tbox.C17.seq_drive_aux',
 ]
 FLOW = ['modules/flow/action.cpp'] + ['modules/flow/actions/%s_action.cpp' % n for n in (
     'assemble', 'composite', 'dummy', 'function', 'if_else', 'if_then', 'loop', 'loop_if', 'parallel', 'repeat',
@@ -175,8 +181,8 @@ def gen(rng, tier):
     # malformed stream: both sides must answer bad-op
     yield ['do start', 'tree', 'tree (', 'tree ( seq:all Fs', 'tree ( seq:bad Fs )', 'tree Fs Fs', 'tree ( ife:tt Fs Fs )', 'tree ( ift Fs )',
            'tree ( loop:fe )', 'tree Z51', 'tree Fs@51', 'tree ( rep:1001:nb Fs )', 'tree ( ife:ff Fs )', 'tree ( sw:n Fs )', 'tree )',
-           'tree ( cmp Fs Fs )', 'tree Fs:21', 'tree ( lif:t Fs )', 'cfg 111', 'tree Fs', 'do', 'do frob', 'do emit:1:s', 'do emit:0:q', 'adv 101',
-           'adv x', 'pass 1', 'frob', 'do start', 'do emit:0:s', 'pass', 'cfg 1111']
+           'tree ( cmp Fs Fs )', 'tree Fs:21', 'tree ( lif:t Fs )', 'cfg 1111', 'tree Fs', 'do', 'do frob', 'do emit:1:s', 'do emit:0:q', 'adv 101',
+           'adv x', 'pass 1', 'frob', 'do start', 'do emit:0:s', 'pass', 'cfg 11111']
     # directed: the three repaired defects and the stale-block pattern
     yield ['tree ( par:all Fs Fs )', 'do start pause', 'pass', 'do resume', 'pass', 'pass', 'pass']
     yield ['tree ( ife:tt Fs Fs Ff )', 'do start', 'do pause', 'pass', 'do resume reset', 'pass', 'pass', 'do start', 'pass', 'pass', 'pass']
@@ -238,20 +244,22 @@ def fingerprint(ops, d):
     return 'C17-' + hashlib.sha1((' '.join(sorted(heads)) + '|' + ' '.join(seq)).encode()).hexdigest()[:10]
 
 
-LEVEL_TEXT = ('Lean 4 theorems over an executable model of the action framework: (1) the Action base lifecycle with the loop\'s deferred queue, '
-              'as an inductive invariant over ALL call sequences (start/pause/resume/stop/reset, finish()/block() in any state, timeout, the loop '
-              'running queued tasks in any order): at most one finish notification between two resets, every delivered finish/block notification '
-              'belongs to the current run, nothing queued after reset/stop, final hook only on the transition into Finished/Stoped, no restart '
-              'while not idle; (2) on arbitrary trees: stop() and finish() leave no descendant running or paused (structural induction, under the '
-              'tree invariant Inv), the control flow of SequenceAction equals the documented loop for any number of children and agrees with '
-              'the reference evaluator; counterexample theorems (kernel evaluation of the model in the unrepaired configuration) for the four '
-              'defects repaired by patches/C17-01..04, each with the theorem that the repaired configuration behaves. The model is tied to the '
-              'real code on every run by differential execution of generated trees and control scripts on the real epoll loop under a virtual '
-              'clock, with property monitors (exactly-once, staleness, quiescence, idle-freshness, documented result of every composite via '
-              'the evaluator) evaluated on every visited state')
-LEVEL_NOTE = ('OPEN (not proved, carried by model + correspondence + monitors): whole-tree "root result = documented meaning" through the queue '
-              '(proved for the Sequence control flow only; the evaluator is compared on every control-free generated run for all composites), '
-              'preservation of the tree invariant by every step, reset-restores-fresh-state; trusted: Lean kernel, hand-written model, harness, '
-              'generator coverage (measured)')
+LEVEL_TEXT = ('Lean 4 theorems over an executable model of the action framework. (1) One action, ALL call sequences (start/pause/resume/stop/'
+              'reset, finish()/block() in any state, timeout, the loop running queued tasks in any order): at most one finish notification '
+              'between two resets, every delivered notification belongs to the current run. (2) EVERY tree, EVERY op sequence: the tree '
+              'invariant WF (Inv.lean) is proved inductive over `step` (control calls at any pass, alone / back to back / deferred with runNext, '
+              'emits on leaves, clock steps, queued tasks and timers of a loop pass) from every freshly built tree; corollaries: below an '
+              'action that is not under way nothing is running or paused (after finish, timeout, stop), stop() leaves the tree quiet, no '
+              'finish/block/replay notification is queued at a reset or stopped action anywhere in the tree, curr_action_ is the only '
+              'under-way child of a serial composite and a held-back result exists only without a current child, the final hook ran exactly '
+              'once iff the action ended, reset() returns every action to its freshly built fields. (3) SequenceAction control flow = documented '
+              'loop for any number of children. (4) Counterexample theorems (kernel evaluation in the unrepaired configuration) for the six '
+              'defects repaired by patches/C17-01..06, each with its repaired counterpart. The model is tied to the real code on every run by '
+              'differential execution of generated trees and control scripts on the real epoll loop under a virtual clock; the driver also '
+              'evaluates WF and the documented result (reference evaluator, all composites) on every visited state')
+LEVEL_NOTE = ('OPEN: whole-tree "root result = documented meaning, leaves started in the documented order" through the queue (proved for the '
+              'Sequence control flow; compared with the evaluator on every control-free generated run for all composites); trace equivalence '
+              'of a reset tree with a fresh one (Clean + WF after reset are proved); ActionExecutor not modelled; trusted: Lean kernel, '
+              'hand-written model, harness, generator coverage (measured)')
 TECHNIQUE = 'Lean 4 invariant/structural-induction proofs over an action-tree model + model/implementation correspondence on the real loop'
 DESIGN_REF = 'DESIGN.md §6 C17, §7 row 15'
